@@ -252,6 +252,22 @@ def run_job(job, tier='quick', want_trace=False, keep=None, select=None):
     return res
 
 
+def job_for_variant(job, label):
+    """The single-variant job behind an obligation id 'xyz@label'."""
+    import copy
+    for v in job.variants or []:
+        if v['label'] == label:
+            j = copy.copy(job)
+            j.variants = None
+            j.defines = list(job.defines) + list(v.get('defines', []))
+            if 'unwind' in v:
+                j.unwind = v['unwind']
+            if 'unwindset' in v:
+                j.unwindset = list(v['unwindset'])
+            return j
+    return None
+
+
 def run_job1(job, tier='quick', want_trace=False, keep=None, select=None):
     """Execute one job. Returns dict:
        state: 'ok' | 'inapplicable' | 'error' | 'timeout'
